@@ -120,19 +120,12 @@ Print Assumptions C12_wide_last.
 (** --- placeholders with a `.STYLE` part ------------------------------------------------------
     [styled_field_line pre post s (Some W) a tr (Some (spre, spost))] is the line
     pre{key:<a><W>[!].STYLE}post; [spre] / [spost] are the texts console writes before / after
-    the value for that style (escape sequences; both empty when colours are off).  A styled sized
-    field is the field of [padded] - the one C12_fits, C12_no_trunc, C12_trunc_* speak about -
-    with the style's texts around it: the style adds text, never changes the field. *)
-Theorem C12_styled_is_field : forall (pre post s : str) (w : N) (a : align) (tr : bool)
-                                     (spre spost : str),
-  styled_field_line pre post s (Some w) a tr (Some (spre, spost)) =
-  match padded s w a tr with
-  | Ok f => Ok (pre ++ (spre ++ f ++ spost) ++ post)
-  | Panic k => Panic k
-  end.
-Proof. exact styled_is_field. Qed.
-Print Assumptions C12_styled_is_field.
-
+    the value for that style (escape sequences; both empty when colours are off).  BY DEFINITION
+    of the model a styled sized field is the field of [padded] - the one C12_fits, C12_no_trunc,
+    C12_trunc_* speak about - with the style's texts around it (unfolding lemmas
+    PaddedProofs.styled_is_field, a [reflexivity], and styled_none: NOT exported, they restate the
+    [match] of [styled_field_line]).  That the CODE applies the style to the padded field, and not
+    padding to styled text, is established by the CStyled correspondence cases only. *)
 (** the clause "W columns when the content fits, padded by the alignment" for a styled field whose
     style texts occupy no column (escape sequences): every width, alignment, content that fits -
     the EMPTY content included -, truncation on or off *)
@@ -158,12 +151,6 @@ Theorem C12_styled_empty : forall (w : N) (a : align) (tr : bool) (spre spost pr
   = Ok (pre ++ (spre ++ spaces w ++ spost) ++ post).
 Proof. exact styled_empty. Qed.
 Print Assumptions C12_styled_empty.
-
-(** without a `.STYLE` part it is the unstyled line *)
-Theorem C12_styled_none : forall (pre post s : str) (w : option N) (a : align) (tr : bool),
-  styled_field_line pre post s w a tr None = field_line pre post s w a tr.
-Proof. exact styled_none. Qed.
-Print Assumptions C12_styled_none.
 
 (** Non-vacuity. *)
 Definition a_ (c : N) : ch := mkch c 1.
@@ -204,3 +191,10 @@ Example C12_ex_styled_empty :
   = Ok ([a_ 124] ++ spre ++ [a_ 32; a_ 32; a_ 32] ++ spost ++ [a_ 32; a_ 120])
   /\ cols spre = 0 /\ cols spost = 0 /\ cols (@nil ch) <= 3.
 Proof. repeat split; try reflexivity. cbn. lia. Qed.
+(* the correspondence checker evaluates the hypothesis [cols spre = 0] of C12_styled_fits on the
+   observed style texts: the line "x " for an empty {msg:1.S} whose style text "x" is handed over with
+   0 columns is accepted, the same observation with "x" measured 1 column wide is a mismatch *)
+Example C12_ex_style_text_columns_checked :
+  c12_check (CStyled [] [] [] (Some 1) ALeft false [(120, 0, 1)] [] (Some [(120, 1); (32, 1)])) = true
+  /\ c12_check (CStyled [] [] [] (Some 1) ALeft false [(120, 1, 1)] [] (Some [(120, 1); (32, 1)])) = false.
+Proof. split; vm_compute; reflexivity. Qed.
